@@ -106,3 +106,18 @@ Proof.
     cbn [complete keeps_id forallb fields fd_index nth_error andb]. rewrite Z.eqb_refl.
     eexists. split; [reflexivity|]. reflexivity.
 Qed.
+
+Corollary step_write_row_upsert (s : astate) id name exit duration delta log user time skip :
+  alist_find id s = None ->
+  (id_min <= id <= id_max)%Z -> id <> 0%Z ->
+  i64 exit -> i64 duration -> i64 delta -> i64 time -> i64 skip ->
+  representable (nth 1 fields (mkfdef [] FStr 1 false [])) name = true ->
+  representable (nth 5 fields (mkfdef [] FStr 5 true [])) log = true ->
+  representable (nth 6 fields (mkfdef [] FStr 6 false [])) user = true ->
+  exists r, spec_write s (render_Z id) (step_write_kvs name exit duration delta log user (Some time) skip) = Some (alist_put id r s) /\
+            map proj_row (alist_put id r s) = upsert (mkrow id name exit skip) (map proj_row s).
+Proof.
+  intros Hf Hid Hnz He Hd Hdl Ht Hs Rn Rl Ru.
+  destruct (step_write_new_row s id name exit duration delta log user time skip Hf Hid Hnz He Hd Hdl Ht Hs Rn Rl Ru) as [r [H1 H2]].
+  exists r. split; [exact H1|]. rewrite proj_put, H2. reflexivity.
+Qed.
